@@ -1,12 +1,12 @@
 #!/bin/bash
 # usage: tools/try_mutant.sh <patch.diff> <check id> [extra check args]
-# Applies the patch to a scratch copy of /repo/src (outside /repo and /verif), runs the check against it
+# Applies the patch to a scratch copy of the committed /repo/src (git archive HEAD) (outside /repo and /verif), runs the check against it
 # via REDUINO_SRC and removes the copy.  Never touches /repo.
 set -u
 patch="$1"; shift
 id="$1"; shift
 scratch=$(mktemp -d /tmp/redu-mut-XXXXXX)
-cp -r /repo/src "$scratch/src"
+git -C /repo archive HEAD src | tar -x -C "$scratch"
 ( cd "$scratch" && patch -p1 -s < "$patch" ) || { echo "patch failed"; rm -rf "$scratch"; exit 9; }
 REDUINO_SRC="$scratch/src" /verif/check "$id" "$@"
 code=$?
